@@ -113,6 +113,14 @@ Proof.
 Qed.
 Print Assumptions c01_every_basis.
 
+(* the hypotheses on K_m are consequences of how the code builds them: K_m = S^T P_m S with S real orthogonal (eigh of a
+   real symmetric Hamiltonian) and P_m real symmetric (site projectors) is real and symmetric *)
+Theorem c01_transformed_site_operators_real_symmetric : forall (R : StarRing) n (S1 S P : @mat R),
+  transpose_of n S1 S -> (sym_mat n P -> sym_mat n (sim n S1 S P)) /\
+  (real_mat n S1 -> real_mat n S -> real_mat n P -> real_mat n (sim n S1 S P)).
+Proof. intros R n S1 S P HT. split; [now apply sim_sym|apply sim_real]. Qed.
+Print Assumptions c01_transformed_site_operators_real_symmetric.
+
 (* non-vacuity: integer operators satisfying the hypotheses exist and give a non-zero tensor *)
 Example c01_hypotheses_satisfiable :
   let K : nat -> @mat GZ := fun _ => mat_of (R:=GZ) [[(1,0); (2,0)]; [(2,0); (0,0)]]%Z in
